@@ -595,6 +595,9 @@ func (x *Exec) makeInterface(st *State, v Value, t types.Type) Value {
 		if w.T.Sort == SInt {
 			return &IfaceV{Tag: tag, Data: w.T}
 		}
+		if w.T.Sort == SBool {
+			return &IfaceV{Tag: tag, Data: Ite(w.T, TOne, TZero)}
+		}
 	case *IfaceV:
 		return w
 	case *MapV:
